@@ -13,8 +13,11 @@ TB = ("Coq 8.16.1 kernel; axioms: none (every theorem 'Closed under the global c
 CLAIMS = {
  "C01": ("proof: planner theorem C01_side_by_side_systems_do_not_conflict over all registration programs (invariant I3+I5 by induction "
          "over the registration sequence); model tied to the real builder by suite S1 (exhaustive small scope + random/funnel/chain "
-         "programs, layouts compared, oracle `isolated` evaluated on every REAL layout)",
-         "runtime half (no overlapping windows in any interleaving) is added with the executor model; rayon modelled, not verified",
+         "programs, layouts compared, oracle `isolated` evaluated on every REAL layout); run time: in EVERY trace of the executor model "
+         "conflicting windows are disjoint; the trace acceptor accepts EXACTLY the model's traces (accept_iff); every oracle has a "
+         "meaning theorem (true on a real layout / recorded trace => the property holds of it) and a holds-on-the-model theorem "
+         "(it can only fire where the crate differs from the model)",
+         "rayon modelled, not verified; KNOWN FINDING KF1 (narrowly attributed, see known_findings.json)",
          "invariant induction + differential correspondence", "5 C01"),
  "C02": ("proof: C02_dependencies_placed_in_front for all programs (invariant I6: scan invariant over pending dependencies); tie: S1 with "
          "oracle `deps_ordered` on every real layout", "that stage/group order implies run order is the executor model's part",
@@ -34,22 +37,26 @@ CLAIMS = {
          "effects are applied atomically at release in the model; batches whose inner-dispatch count depends on the world are "
          "outside the batch lemma (the harness's MultiDispatcher counts are fixed); rayon modelled",
          "confluence proof + differential correspondence", "5 C05"),
- "C06": ("proof by structural induction over type expressions of ANY arity and nesting (Read/Write with default or panic handler, Option "
+ "C06": ("proof by structural induction over type expressions of ANY arity and nesting (Read/Write with default, panic or user-written handler, Option "
          "forms, (), PhantomData, tuples, derived structs): reported reads/writes = types of the shared/exclusive leaves in fetch "
          "order; a successful fetch adds exactly one shared guard per existing declared read and one exclusive guard per existing "
          "declared write and changes nothing else; dropping the value (or the unwinding of a failed fetch) restores cells and guards "
-         "exactly; setup = composition of member setups with its exact effect. tie: S4 — a generated crate instantiates 787 type "
+         "exactly; setup = composition of member setups with its exact effect, the calls of user-written handlers are the members' calls "
+         "once each in member order (C06_setup_calls_compose). tie: S4 — a generated crate instantiates 1073 type "
          "expressions for real (every tuple arity in the source twice, every leaf kind at every position of arities "
-         "1,2,3,5,8,13,21,26, nestings to depth 3, derived named/tuple structs with 1..40 fields, extra lifetimes, type parameters, "
+         "1,2,3,5,8,13,21,26, every ordered pair of accessor kinds on one resource flat and nested, nestings to depth 3, derived named/tuple structs with 1..40 fields, extra lifetimes, type parameters, "
          "where-clauses, members without the fetch lifetime) under 7 presence masks each; reads()/writes(), fetch outcome, borrow "
-         "class of every cell while the value lives and after the drop, world after setup are compared with SysData.v",
+         "class of every cell while the value lives and after the drop, world after setup and the log of handler calls (first and repeated setup) "
+         "are compared with SysData.v",
          "parametricity of Rust generics is the (trusted) reason why finitely many instantiations characterise the generic impls and "
          "the macro; a tuple arity that no longer compiles breaks the generated crate => violation with the compiler output as replay",
          "structural induction + differential correspondence on generated instantiations", "5 C06"),
  "C07": ("proof: C07_batch_accessor_covers_controller_and_all_inner_systems by induction on nesting (any depth); "
          "C07_side_by_side_subtrees_do_not_conflict: registrations placed side by side do not conflict on anything declared inside "
          "them; the inner dispatcher is planned by the same planner (all level theorems apply to it); inner events lie inside the "
-         "batch window (oracle `inside` + lemma). tie: S1 nested programs with oracle `isolated` on effective access against the REAL "
+         "batch window (oracle `inside` + lemma); WHOLE TREE: C07_conflicting_systems_anywhere_in_the_tree_never_overlap over the nested "
+         "trace set ntr (any depth, repeated inner dispatches, free interleaving of subtrees), inhabited, with the sound executable "
+         "acceptor naccept that S2 runs on the whole log of every full dispatch. tie: S1 nested programs with oracle `isolated` on effective access against the REAL "
          "outer layout, S2 traces (no_overlap at any depth, inside, inner once/preds_done per inner dispatch)",
          "KNOWN FINDING KF1: thread-local systems inside a batch builder are invisible to the accessor (stated on the model as "
          "C07_KF1_..., witness corpus/exec-kf1.txt)",
@@ -119,8 +126,10 @@ CLAIMS = {
          "oracles on the raw log (no open window when an accessor returns, running() never false while a system is inside run, "
          "thread-local systems only inside wait on the calling thread after all others, every wait runs all of them in order, "
          "run counters = number of dispatches)",
-         "mpsc channel and ThreadPool::spawn are modelled (send/receive as atomic steps); the acceptor's relation to the LTS is "
-         "by construction, not by a separate theorem; events inside batches are checked by S2",
+         "mpsc channel and ThreadPool::spawn are modelled (send/receive as atomic steps); the acceptor is not proved to simulate the LTS; "
+         "instead AsyncAccept.v proves directly what acceptance of a RECORDED history means (an accepted history ending with an accessor's "
+         "return consists of complete dispatches, each a trace of the model, and nothing is active; running()=true only with an outstanding "
+         "job; thread-local events only inside wait on the caller after the job; pool events never overtake); events inside batches are checked by S2",
          "LTS invariants by induction over runs + differential correspondence", "5 C15"),
  "C16": ("proof by induction over trees of any depth and fan-out: every trace is a permutation of the sequential trace (each leaf "
          "exactly once); for every seq node at any depth, every leaf of an earlier child has released before any leaf of a later "
